@@ -193,21 +193,28 @@ class DiameterAssociation(object):
     def recv_message_from_queue(self) -> None:
         pending_stream = b""
 
-        while not self._stop_threads and self.transport:
-            self.transport._recv_data_available.wait(timeout=1)
+        while not self._stop_threads:
+            #: close() resets self.transport from another thread: work on the 
+            #: reference taken here.
+            transport = self.transport
+            if transport is None:
+                break
+
+            transport._recv_data_available.wait(timeout=1)
 
             self.lock.acquire()
 
             if self.transport is None:
+                self.lock.release()
                 break
 
             #: The transport thread appends to this buffer: take it and 
             #: empty it in one step under the transport's lock.
-            self.transport.lock.acquire()
-            data_stream = pending_stream + self.transport._recv_data_stream
-            self.transport._recv_data_stream = b""
-            self.transport._recv_data_available.clear()
-            self.transport.lock.release()
+            transport.lock.acquire()
+            data_stream = pending_stream + transport._recv_data_stream
+            transport._recv_data_stream = b""
+            transport._recv_data_available.clear()
+            transport.lock.release()
 
             diameter_conn_logger.debug("Grabbing data stream from "\
                                        "Transport Layer to Diameter Layer.")
